@@ -161,7 +161,7 @@ def fam_flow(depth, quick=True):
     out = []
     ctx0 = dict(loop=False, brk=False, labels=[], looplabels=[])
     for n, body in enumerate(_gen(depth, ctx0, 0)):
-        src = PRINTER + "\n" + FLOW_PRE + "function f(){ %s L('end'); return 'END'; }\nvar r; try { r='ret:'+f(); } catch(e) { r='thr:'+e; }\nLOG.join(',')+'|'+r+'|'+s" % body
+        src = PRINTER + "\n" + FLOW_PRE + "function f(){ %s L('end'); return 'END'; }\nvar r; try { r='ret:'+f(); } catch(e) { r='thr:'+(e instanceof Error ? e.name : e); }\nLOG.join(',')+'|'+r+'|'+s" % body
         out.append(Case("flow%d:%d" % (depth, n), src, quick=quick))
     return out
 
